@@ -1,6 +1,9 @@
 (* C05 / C06 / C20 driver (one case format for the three properties; C06 and C20 link to this file).
    input : nv w_0 .. w_{nv-1} fcsize vcsize diffk mal ; op ; op ; ...
      E id cr seq p1 .. pk   Engine.Add (+Flush, or DropNotFlushed on failure)    obs e1 | e0 (error) | eP (panic)
+     A id cr seq p1 .. pk   Engine.Add WITHOUT Flush (DropNotFlushed on failure: every unflushed event is lost)
+     F                      Flush                                                obs f
+     D                      DropNotFlushed (back to the last Flush)              obs d<number of events lost>
      Q k ord                ForklessCause on all pairs of the last k added events, twice
                                                                                   obs q<bits>/<bits>
      M k                    GetMergedHighestBefore of the last k (0 = all) events, direct and
@@ -13,7 +16,10 @@
    spec side : extracted graph specification (FcSpec: fc_spec_row / merged_spec_t, equal to
    fc_spec / merged_spec by proofs/FcSpecFast.v) and QuorumSpec (median_spec, metric_spec) evaluated
    on the events the implementation accepted, compared with what the implementation answered.
-   mal = 1 marks a malformed stream (outside wf_stream): model comparison only. *)
+   mal = 1 marks a malformed stream (outside wf_stream): model comparison only.
+   Every accepted event of a mal = 0 case is checked with the extracted wf_evb (= the hypothesis
+   wf_stream of the theorems, proofs/VecMain.v wf_evb_iff); a violation is reported as a
+   model_vs_spec problem (the generator left the theorems' domain). *)
 open Model
 open Conv
 open Drv
@@ -36,12 +42,14 @@ let eval inp obs =
   let ws = List.map n_of_tok (List.filteri (fun i _ -> i < nv) rest) in
   let rest = List.filteri (fun i _ -> i >= nv) rest in
   let fcsize, diffk, mal = (match rest with
-    | [f; _; d; m] -> int_of_string f, n_of_tok d, m = "1" | _ -> failwith "bad header") in
+    | [f; _; d; m] -> int_of_string f, n_of_tok d, ref (m = "1") | _ -> failwith "bad header") in
+  let declared_mal = !mal and hyp_bad = ref [] in
   let nvn = nat_of_int nv in
   let q = quorum_of ws in
   let s = ref (init nvn) and cache = ref (fcache_new (nat_of_int fcsize)) in
-  let order = ref [] (* newest first *) in
-  let specE = ref [] (* (id, event), newest first: events the implementation accepted *) in
+  let sflushed = ref (init nvn) in
+  let order = ref [] (* newest first *) and orderF = ref [] in
+  let specE = ref [] (* (id, event), newest first: events the implementation accepted *) and specEF = ref [] in
   let table = ref None in
   let get_table () = (match !table with Some t -> t | None -> let t = anc_table !specE in table := Some t; t) in
   let qi = ref (Some (qi_new nvn)) in
@@ -60,14 +68,25 @@ let eval inp obs =
   List.iteri (fun i op ->
     let iobs = if i < Array.length obs_arr then obs_arr.(i) else "" in
     let out = (match op with
-    | "E" :: id :: cr :: sq :: ps ->
+    | ("E" | "A" as kind) :: id :: cr :: sq :: ps ->
       let e = { eid = n_of_tok id; ecr = nat_of_tok cr; eseq = n_of_tok sq; epar = List.map n_of_tok ps } in
-      let (ok, s') = add_or_drop !s e in
-      s := s';
-      if ok then order := e.eid :: !order;
-      if iobs = "e1" then begin specE := (e.eid, e) :: !specE; table := None end;
+      let (ok, st') = vs_add { vs_flushed = !sflushed; vs_cur = !s } e in
+      s := st'.vs_cur;
+      if ok then order := e.eid :: !order else order := !orderF;
+      if iobs = "e1" then begin
+        if not !mal && not (wf_evb nvn !specE e) then begin
+          hyp_bad := (Printf.sprintf "op%d:E%s outside wf_stream" i (ntok e.eid)) :: !hyp_bad; mal := true end;
+        specE := (e.eid, e) :: !specE; table := None end
+      else begin specE := !specEF; table := None end;
+      if ok && kind = "E" then begin sflushed := !s; orderF := !order end;
+      if iobs = "e1" && kind = "E" then specEF := !specE;
       if int_of_nat (nbr !s) > nv then forkseen := true;
       if ok then "e1" else "eP" (* the real Add panics on a missing parent vector (typed-nil check), see notes *)
+    | ["F"] -> sflushed := !s; orderF := !order; specEF := !specE; "f"
+    | ["D"] ->
+      let lost = List.length !order - List.length !orderF in
+      s := !sflushed; order := !orderF; specE := !specEF; table := None;
+      "d" ^ string_of_int lost
     | ["Q"; k; ord] ->
       let r = lastn (int_of_string k) (List.rev !order) in
       let pairs = List.concat_map (fun a -> List.map (fun b -> (a, b)) r) r in
@@ -80,7 +99,7 @@ let eval inp obs =
       let b1 = run () in let b2 = run () in
       let sp = bits (List.concat_map (fun a -> fc_spec_row ws q nvn !specE (get_table ()) a r) r) in
       if String.contains sp '1' then fctrue := true;
-      if not mal then begin
+      if not !mal then begin
         if iobs <> "q" ^ sp ^ "/" ^ sp then spec_bad := (Printf.sprintf "op%d:Q spec=%s" i sp) :: !spec_bad;
         if b1 <> sp || b2 <> sp then mspec_bad := (Printf.sprintf "op%d:Q" i) :: !mspec_bad
       end;
@@ -92,11 +111,11 @@ let eval inp obs =
         let sp = merged_spec_t nvn !specE (get_table ()) id in
         let sp_tok = csv (fun (f, x) -> if f then "F" else ntok x) sp in
         let m_tok = csv hb_tok_a m in
-        if not mal && m_tok <> sp_tok then mspec_bad := (Printf.sprintf "op%d:M%s" i (ntok id)) :: !mspec_bad;
+        if not !mal && m_tok <> sp_tok then mspec_bad := (Printf.sprintf "op%d:M%s" i (ntok id)) :: !mspec_bad;
         (ntok id ^ "=" ^ csv hb_tok m ^ "~" ^ m_tok, ntok id, sp_tok) in
       let res = List.map one r in
       (* spec against the implementation's own answer *)
-      if not mal then begin
+      if not !mal then begin
         let body = if String.length iobs > 0 then String.sub iobs 1 (String.length iobs - 1) else "" in
         let parts = if body = "" then [] else String.split_on_char '/' body in
         if List.length parts <> List.length res then spec_bad := (Printf.sprintf "op%d:M shape" i) :: !spec_bad
@@ -140,7 +159,7 @@ let eval inp obs =
         | None -> qi := None; "gPANIC"
         | Some (meds, st') ->
           qi := Some st';
-          if not mal then begin
+          if not !mal then begin
             let sm = spec_matrix () in
             let smeds = List.map (fun row -> median_spec ws q row) sm in
             let sp = "g" ^ csv ntok smeds ^ ":" ^ csv (fun row -> join "." (List.map ntok row)) sm ^ ":" ^ csv ntok (spec_self ()) in
@@ -158,7 +177,7 @@ let eval inp obs =
           | None -> qi := None; "tPANIC"
           | Some (m, st') ->
             qi := Some st';
-            if not mal then begin
+            if not !mal then begin
               let smeds = List.map (fun row -> median_spec ws q row) (spec_matrix ()) in
               let sp = metric_spec diff smeds (spec_self ()) (spec_clock idn) nvn in
               if iobs <> "t" ^ ntok sp then spec_bad := (Printf.sprintf "op%d:T spec=%s" i (ntok sp)) :: !spec_bad;
@@ -169,9 +188,10 @@ let eval inp obs =
     mobs := out :: !mobs) ops;
   { default_verdict with model_obs = List.rev !mobs;
     spec_ok = Some (!spec_bad = []);
-    model_spec_ok = (!mspec_bad = []);
-    nontrivial = !forkseen || !fctrue;
+    model_spec_ok = (!mspec_bad = [] && !hyp_bad = []);
+    nontrivial = (!forkseen || !fctrue) && (declared_mal || !hyp_bad = []);
     note = (if !spec_bad <> [] then "impl-vs-spec at " ^ join " " (List.rev !spec_bad) else "") ^
-           (if !mspec_bad <> [] then " model-vs-spec at " ^ join " " (List.rev !mspec_bad) else "") }
+           (if !mspec_bad <> [] then " model-vs-spec at " ^ join " " (List.rev !mspec_bad) else "") ^
+           (if !hyp_bad <> [] then " hypothesis: " ^ join " " (List.rev !hyp_bad) else "") }
 
 let () = run eval
